@@ -105,10 +105,26 @@ def oracle(ctx, script, real, gen_index):
     cfg, obs, events = real
     last = None
     pending = {}
+    # the simulation parameters in force are taken from the COMMAND HISTORY (the documented command table, C05's reference), not from
+    # what the implementation reports about itself: "SETTA 2, SETTA 5" means TA 5 whatever the object's attribute says
+    from . import C05 as _C05
+    ref = _C05.Ref(cfg)
     for e in events:
         op = e["op"]
+        if op[0] == "ctrl":
+            try:
+                toks = bytes(op[2]).decode("ascii").strip().strip("\0").split(" ")
+                if toks[0] == "CMD" and len(toks) >= 2:
+                    ref.cmd(op[1], toks[1], [int(x) for x in toks[2:]])
+            except (ValueError, UnicodeDecodeError):
+                pass
         if "state" in e:
             last = e["state"][0]
+            for i, t in enumerate(last):
+                if t["sim"][:11] != ref.sim(i)[:11] or t["ver"] != ref.t[i]["ver"]:
+                    ctx.oracle_fail("simulation parameters of a transceiver differ from what the command history sets", dict(trx=i, ops=[SC.describe(o) for o in ops][:80]),
+                                    key="c10-parameters-vs-history", expected=ref.sim(i)[:11], observed=t["sim"][:11])
+                    return
         elif op[0] == "data" and e["obs"] == [2, 1]:
             d = op[2]
             pending[(op[1], d[1] << 24 | d[2] << 16 | d[3] << 8 | d[4])] = d
@@ -117,8 +133,8 @@ def oracle(ctx, script, real, gen_index):
                 sent = pending.get((src, op[1]))
                 if sent is None:
                     continue
-                s_sim, d_sim = last[src]["sim"], last[j]["sim"]
-                ver = last[j]["ver"]
+                s_sim, d_sim = ref.sim(src), ref.sim(j)
+                ver = ref.t[j]["ver"]
                 if (dg[0] >> 4) >= 1 and len(dg) > 8 and (dg[8] & 0x80):
                     continue          # an idle indication (suppressed burst): who gets one and what it holds is C02 / C18
                 bits = sent[6:]
